@@ -31,22 +31,41 @@ type c12obs struct {
 	panicv string
 }
 
-func c12place(content []byte, before [][]byte) (*parsley.FileSet, *text.File) {
+// c12place builds the file set. readerFirst selects the construction order NewFile -> NewReader -> AddFile
+// (used by the repository's own JSON test) instead of NewFile -> AddFile -> NewReader (README order):
+// both are legal and must give the same reader.
+func c12place(content []byte, before [][]byte, readerFirst bool) (*parsley.FileSet, *text.File, *text.Reader) {
 	fs := parsley.NewFileSet()
 	for i, b := range before {
 		fs.AddFile(text.NewFile(fmt.Sprintf("other%d", i), b))
 	}
 	f := text.NewFile("f", content)
+	var rd *text.Reader
+	if readerFirst {
+		rd = text.NewReader(f)
+	}
 	fs.AddFile(f)
-	return fs, f
+	if !readerFirst {
+		rd = text.NewReader(f)
+	}
+	return fs, f, rd
+}
+
+// c12order: which construction order a placement uses (a function of the placement, so replays agree)
+func c12order(before [][]byte) bool {
+	n := 0
+	for _, b := range before {
+		n += len(b)
+	}
+	return n%2 == 1
 }
 
 // c12parse runs Parse (and Evaluate when eval is set) on a fresh context
 func c12parse(p parsley.Parser, content []byte, before [][]byte, eval bool) (o c12obs) {
-	fs, f := c12place(content, before)
+	fs, f, rd := c12place(content, before, c12order(before))
 	o.base = int(f.Pos(0))
 	o.errPos = -1
-	ctx := parsley.NewContext(fs, text.NewReader(f))
+	ctx := parsley.NewContext(fs, rd)
 	defer func() {
 		o.calls = ctx.CallCount()
 		if e := recover(); e != nil {
@@ -227,9 +246,8 @@ func c12exec(j run.Job, a *run.Acc) {
 				continue
 			}
 			norm := c08normalise(raw)
-			fs1, f1 := c12place(raw, nil)
-			fs2, f2 := c12place(raw, before)
-			rd1, rd2 := text.NewReader(f1), text.NewReader(f2)
+			fs1, f1, rd1 := c12place(raw, nil, false)
+			fs2, f2, rd2 := c12place(raw, before, c12order(before))
 			b1, b2 := int(f1.Pos(0)), int(f2.Pos(0))
 			okAll := true
 			for _, l := range ps {
